@@ -1,7 +1,12 @@
 #!/bin/bash
 # usage: try_seed.sh <patch> <Cxx> [more Cyy ...]   — applies the patch to /repo, runs the quick checks, reverts.
+# The evidence files of the unchanged tree are saved and restored: what is committed under evidence/
+# must always come from a run on /repo itself.
 P=$1; shift
-cd /repo && git apply "$P" || { echo "patch does not apply"; exit 3; }
+S=$(mktemp -d /tmp/evsave.XXXXXX)
+cp /verif/evidence/*.json $S/ 2>/dev/null
+cd /repo && git apply "$P" || { echo "patch does not apply"; rm -rf $S; exit 3; }
 cd /verif
 for c in "$@"; do ./check $c quick 2>&1 | grep -E "VIOLATION|exit [0-9]" ; done
 cd /repo && git checkout -- . && git status --short | head -3
+cp $S/*.json /verif/evidence/ 2>/dev/null; rm -rf $S
